@@ -1498,12 +1498,31 @@ void SPxMainSM<R>::AggregationPS::execute(VectorBase<R>& x, VectorBase<R>& y, Ve
    r[m_j] = 0.0;
 
    // basis:
-   if(((cStatus[active_idx] == SPxSolverBase<R>::ON_UPPER
-         || cStatus[active_idx] == SPxSolverBase<R>::FIXED)
-         && NE(x[active_idx], m_oldupper, this->feastol())) ||
-         ((cStatus[active_idx] == SPxSolverBase<R>::ON_LOWER
-           || cStatus[active_idx] == SPxSolverBase<R>::FIXED)
-          && NE(x[active_idx], m_oldlower, this->feastol())))
+   // does the kept variable sit at a bound that it only inherited from the aggregated one?
+   bool atInheritedBound = false;
+
+   if(cStatus[active_idx] == SPxSolverBase<R>::ON_UPPER)
+      atInheritedBound = NE(x[active_idx], m_oldupper, this->feastol());
+   else if(cStatus[active_idx] == SPxSolverBase<R>::ON_LOWER)
+      atInheritedBound = NE(x[active_idx], m_oldlower, this->feastol());
+   else if(cStatus[active_idx] == SPxSolverBase<R>::FIXED)
+   {
+      // both bounds are active in the reduced LP; the sign of the reduced cost says which one is binding, and only if that is
+      // one of the variable's own old bounds it stays nonbasic (with its old bounds it is fixed only if they coincide)
+      const bool ownLower = EQ(x[active_idx], m_oldlower, this->feastol());
+      const bool ownUpper = EQ(x[active_idx], m_oldupper, this->feastol());
+
+      if(ownLower && ownUpper)
+         atInheritedBound = false;
+      else if(ownLower && r[active_idx] >= 0)
+         cStatus[active_idx] = SPxSolverBase<R>::ON_LOWER;
+      else if(ownUpper && r[active_idx] <= 0)
+         cStatus[active_idx] = SPxSolverBase<R>::ON_UPPER;
+      else
+         atInheritedBound = true;
+   }
+
+   if(atInheritedBound)
    {
       // the kept variable sits at a bound it only inherited from the aggregated one, so it becomes basic and the
       // aggregated variable nonbasic: the reduced cost of the kept variable has to move into the dual of the removed
